@@ -115,14 +115,46 @@ def run(ctx):
         wit = dict(query=q, candidates=[c.tolist() for c in ca], options=opts, use_lb=use_lb, use_c=use_c, max_dist=md,
                    max_value=mv, order=order, ndim=nd)
 
+        via_helper = rng.random() < 0.3
+        can_c = isinstance(opts.get("inner_dist", ""), str)
+
         def fresh():
+            if via_helper:
+                ctx.count("objects_built_by_helper")
+                return subsequence_search(qa, ca, dists_options=dict(opts), use_lb=use_lb, max_dist=md, max_value=mv, use_c=use_c)
             return SubsequenceSearch(qa, ca, dists_options=dict(opts), use_lb=use_lb, max_dist=md, max_value=mv, use_c=use_c)
 
         def answer(obj, op):
             kind_, k = op
             if kind_ == "kbest":
                 ms = obj.kbest_matches(k=k)
-                return [(float(m.distance), int(m.idx)) for m in ms]
+                out_ = [(float(m.distance), int(m.idx)) for m in ms]
+                # the container protocol of the returned matches is one more view on the same answer
+                if len(ms) != len(out_):
+                    raise AssertionError("len(matches)=%d but %d matches are iterated" % (len(ms), len(out_)))
+                for i_ in range(len(out_)):
+                    mi = ms[i_]
+                    if (float(mi.distance), int(mi.idx)) != out_[i_]:
+                        raise AssertionError("matches[%d] differs from the %d-th iterated match" % (i_, i_))
+                    if not oracle.close(float(mi.value), out_[i_][0] / len(qa)):
+                        raise AssertionError("value is not distance / len(query)")
+                    if obj.k is not None and i_ < obj.k:
+                        gv = obj.get_ith_value(i_)
+                        if (float(gv[0]), int(gv[1])) != out_[i_]:
+                            raise AssertionError("get_ith_value(%d) differs from the %d-th match" % (i_, i_))
+                if len(out_) >= 2:
+                    sl = [(float(m.distance), int(m.idx)) for m in ms[1:]]
+                    if sl != out_[1:]:
+                        raise AssertionError("matches[1:] differs from the iterated matches")
+                ctx.count("match_container_checks")
+                return out_
+            if kind_ == "kbest_fast":
+                return [(float(m.distance), int(m.idx)) for m in obj.kbest_matches_fast(k=k)]
+            if kind_ == "best_fast":
+                m = obj.best_match_fast()
+                return [(float(m.distance), int(m.idx))]
+            if kind_ == "align_fast":
+                return [(float(d), int(i)) for d, i in obj.align_fast(k=k)]
             if kind_ == "best":
                 m = obj.best_match()
                 return [(float(m.distance), int(m.idx))]
@@ -150,7 +182,11 @@ def run(ctx):
         for _ in range(rng.randint(1, 5)):
             y = rng.random()
             kk = rng.choice([1, 2, 3, n, n + 1, None, rng.randint(1, n + 1)])
-            if y < 0.55:
+            if can_c and not nd and rng.random() < 0.2:
+                ops.append((rng.choice(["kbest_fast", "best_fast", "align_fast"]), kk))
+                if ops[-1][0] == "best_fast":
+                    ops[-1] = ("best_fast", 1)
+            elif y < 0.55:
                 ops.append(("kbest", kk))
             elif y < 0.7:
                 ops.append(("best", 1))
@@ -170,13 +206,13 @@ def run(ctx):
                 got = answer(obj, op)
                 want_obj = answer(fresh(), op)
             except Exception as e:
-                if op[0] == "best" and not [d for d in dists if d != inf and (eff is None or d <= eff)]:
+                if op[0] in ("best", "best_fast") and not [d for d in dists if d != inf and (eff is None or d <= eff)]:
                     continue     # nothing to return: raising is acceptable
                 ctx.violation("exception", fn=op[0], op=list(op), step=step, ops=[list(o) for o in ops], error=repr(e)[:300], **wit)
                 break
             if got is None:
                 continue
-            k = op[1] if op[0] != "best" else 1
+            k = op[1] if op[0] not in ("best", "best_fast") else 1
             exp = expected(dists, k, eff)
             ctx.count("answers_checked_against_exhaustive")
             gd = [d for d, _ in got]
